@@ -704,7 +704,7 @@ func runC14(c *Ctx) error {
 		sizes := []uint64{lc + 1, lc, lo + 1, (lo + hi) / 2, hi, hi + 1, 2 << 30, 0xffffffff}
 		seen := map[uint64]bool{}
 		for _, sz := range sizes {
-			if sz > 0xffffffff || seen[sz] || (sz <= lc && sz > 300<<20) {
+			if sz > 0xffffffff || seen[sz] || (sz <= lc && sz > 20<<20) {
 				continue // (an announced size within the current limit is legitimately allocated: keep those small)
 			}
 			seen[sz] = true
